@@ -411,7 +411,12 @@ func (r ReferenceStorage) CheckAndSetReference(ref, old *plumbing.Reference) err
 
 	if old != nil {
 		tmp := r[ref.Name()]
-		if tmp != nil && tmp.Hash() != old.Hash() {
+		if tmp == nil {
+			// There is no stored value that old could match: same
+			// answer as the filesystem storage gives.
+			return plumbing.ErrReferenceNotFound
+		}
+		if tmp.Hash() != old.Hash() {
 			return storage.ErrReferenceHasChanged
 		}
 	}
